@@ -36,7 +36,9 @@ TOL = 1e-12
 
 def BOUNDS(tier):
     return {"meshes": "<= 4 cells", "tensor_order": "<= 4", "preemption_bound": 2 if tier == "thorough" else 1, "pool_sizes": [2, 3, 5],
-            "thread_models": "Line 1/2 cells scalar+vector, Quad 1 cell scalar (4-16 threads)"}
+            "thread_models": "Line 1/2 cells scalar+vector, Quad 1 cell scalar (4-16 threads): all schedules up to the preemption bound; join(t) waits for t only",
+            "many_thread_models": "triangle 1 cell 2-vector (36 threads), quad 1 cell 3-vector (144); thorough: quad8 (256), hexahedron (576): delay-bounded, 1 delay, at thread boundaries (quick) / every yield point, capped 2500 (thorough)",
+            "reuse_histories": "3 geometries x ordered pairs x {dual kept, displacement kept} x {assembled before or not}, (u,p,J) 3d / plane strain / axisymmetric"}
 
 
 # ----------------------------------------------------------------------------- reference
